@@ -18,6 +18,7 @@ type Obligation struct {
 	Formula T
 	Pos     int // number of session assertions visible to this obligation
 	Skip    [][2]int // assertion index ranges [from,to) hidden from this obligation (isolated loops)
+	Using   []string // when set: of the quantified assumptions that carry an origin only those whose origin starts with one of these are shown
 	Tag     int      // isolated loop body this obligation lives in (0 = none): quantified facts of other isolated bodies are hidden
 	Result  SolveResult
 	File    string
@@ -31,6 +32,8 @@ type namedTerm struct {
 }
 
 type Session struct {
+	curOrigin     string   // where the assertions made now come from ("post:update#1", "inv#1", "requires", "at:update#1")
+	assertOrigins []string // per assertion
 	fnCells map[string]Val // function values stored in local cells (by cell reference)
 	topFrame *Frame // frame of the function under proof
 	runMode string // contract mode in which the function under proof is being verified
@@ -118,6 +121,10 @@ func (s *Session) tagAssert() {
 		s.assertTags = append(s.assertTags, 0)
 	}
 	s.assertTags = append(s.assertTags, s.curTag)
+	for len(s.assertOrigins) < len(s.asserts)-1 {
+		s.assertOrigins = append(s.assertOrigins, "")
+	}
+	s.assertOrigins = append(s.assertOrigins, s.curOrigin)
 }
 
 func (s *Session) fresh(hint, sort string) T {
@@ -300,6 +307,17 @@ func (s *Session) queryWith(o *Obligation, reveal bool) string {
 		}
 		if i < len(s.assertTags) && s.assertTags[i] != 0 && s.assertTags[i] != o.Tag && (strings.Contains(s.asserts[i], "(forall ") || strings.Contains(s.asserts[i], "(exists ")) {
 			hidden = true // made inside the body of another isolated loop whose only exits leave from its head
+		}
+		if len(o.Using) > 0 && i < len(s.assertOrigins) && s.assertOrigins[i] != "" && (strings.Contains(s.asserts[i], "(forall ") || strings.Contains(s.asserts[i], "(exists ")) {
+			keep := false
+			for _, u := range o.Using {
+				if strings.HasPrefix(s.assertOrigins[i], u) {
+					keep = true
+				}
+			}
+			if !keep {
+				hidden = true
+			}
 		}
 		if hidden {
 			continue
